@@ -490,6 +490,65 @@ func runRD(mode, tier string, shard, shards int, rep *SeqReport) {
 				rep.family("shift-family", n)
 				rep.States += n
 				rep.sample(fmt.Sprintf("%s: CA:a; CA:a+p; CA:a+p+d; re-check all, for p in 0..%d, d in 1..%d, a in %v", fam, w+1, w+65, starts))
+				// (ii-b) two large jumps in a row: a number accepted just behind the head, then the head moves by about
+				// a window (or a mask word) twice — whatever the implementation recycles on a jump must come back clean
+				{
+					var n2 int64
+					W := uint64(w)
+					jumps := []uint64{63, 64, 65, W - 1, W, W + 1, W + 64, 2 * W}
+					for _, a := range starts {
+						for _, q := range []uint64{1, 2, 63, 64, W - 1} {
+							if q == 0 || q >= W {
+								continue
+							}
+							for _, d1 := range jumps {
+								for _, d2 := range jumps {
+									if d1 == 0 || d2 == 0 || d1 > 1<<20 || d2 > 1<<20 {
+										continue
+									}
+									var h, m1, top uint64
+									if wrap {
+										M := max + 1
+										h, m1, top = (a+M-q%M)%M, (a+d1)%M, (a+d1+d2)%M
+									} else {
+										if a < q || a+d1+d2 < a || a+d1+d2 > max {
+											continue
+										}
+										h, m1, top = a-q, a+d1, a+d1+d2
+									}
+									s := sysOf(cfg)
+									ops := []string{"CA:" + u(a), "CA:" + u(h), "CA:" + u(m1), "CA:" + u(top)}
+									for _, x := range []uint64{top - q, top - 1, top - 2, top - W + 1, top - W, m1 - q, m1 - 1, m1, h, a, top, top + 1} {
+										if wrap {
+											x = (x + 2*(max+1)) % (max + 1)
+										} else if x > max {
+											continue
+										}
+										ops = append(ops, "C:"+u(x), "CA:"+u(x))
+									}
+									var hist []string
+									for _, op := range ops {
+										qq, _ := strconv.ParseUint(op[strings.IndexByte(op, ':')+1:], 10, 64)
+										if s.zone(qq) {
+											continue
+										}
+										hist = append(hist, op)
+										_, sig, msg := s.Apply(op)
+										rep.Transitions++
+										if sig != "" {
+											rep.violate("double-jump "+cfg.String(), sig, msg, strings.Join(hist, "; "))
+											break
+										}
+									}
+									n2++
+									rep.Evaluations++
+								}
+							}
+						}
+					}
+					rep.family("double-jump-family", n2)
+					rep.States += n2
+				}
 				// (iii) BFS over the offset alphabet from deep starts
 				for ai, a := range starts {
 					a := a
@@ -545,7 +604,7 @@ func init() {
 	assume := []string{"sequence numbers come from the enumerated alphabets (all numbers for the closed small configurations; window/word-boundary/edge offsets for large ones)",
 		"wrapping detector: numbers within 1 of the half-space boundary are unconstrained and not probed"}
 	register(&Check{ID: "C04", Seq: func(tier string, shard, shards int, rep *SeqReport) { runRD("C04", tier, shard, shards, rep) },
-		Rule:        "explicit-state BFS over Check/accept histories of the real detectors to a fixed point for windows 0..6 x maxima 1..15; for every listed window size (quick: 20 sizes around multiples of 64; thorough: 0..260) and maxima 2^16-1, 2^48-1, 2^64-1 (wrap 2^62-1) every 3-accept history placing a mask bit at every position and shifting it by every distance, plus depth-3/4 BFS over offsets around window edge and 64-bit word boundaries; states merged on a reflective dump of the detector + model",
+		Rule:        "explicit-state BFS over Check/accept histories of the real detectors to a fixed point for windows 0..6 x maxima 1..15; for every listed window size (quick: 20 sizes around multiples of 64; thorough: 0..260) and maxima 2^16-1, 2^48-1, 2^64-1 (wrap 2^62-1) every 3-accept history placing a mask bit at every position and shifting it by every distance, plus every double-jump history (a number accepted just behind the head, then two jumps of about a window or a mask word, then the neighbourhood re-checked), plus depth-3/4 BFS over offsets around window edge and 64-bit word boundaries; states merged on a reflective dump of the detector + model",
 		Assumptions: assume})
 	register(&Check{ID: "C05", Seq: func(tier string, shard, shards int, rep *SeqReport) { runRD("C05", tier, shard, shards, rep) },
 		Rule:        "same enumeration as C04 restricted to the configurations C05 quantifies over; every Check result and every accept() result is compared with the sliding-window reference model, check-only operations must not change later answers",
